@@ -153,6 +153,13 @@ def run_comparator(ctx):
             txt = {o: ordering_variants(rows[o]["body"]) for o in want}
             if not any(txt.values()):
                 continue
+            # evaluate the arm on {Less, Equal, Greater} where its form is recognised (handles negated / closure forms such as
+            # `.is_some_and(|o| o != Greater)`, which only MENTION an ordering); the syntactic reading is the fallback
+            from rules import C09 as _c09
+            for o in want:
+                vals = {i: _c09.ord_eval(rows[o]["body"], i) for i in _c09.ORD}
+                if all(v is not None for v in vals.values()):
+                    txt[o] = {i for i, v in vals.items() if v}
             n_tab += 1
             for o, exp in want.items():
                 key = "%s:%s" % (path, o)
